@@ -327,4 +327,13 @@ def main(argv=None):
 
 
 if __name__ == "__main__":
-    sys.exit(main())
+    try:
+        rc = main()
+    except SystemExit:
+        raise
+    except BaseException as e:   # noqa  - a crash of the machinery is a harness error (3), never a verdict
+        import traceback
+        traceback.print_exc()
+        print(f"  HARNESS-ERROR: {type(e).__name__}: {str(e)[:600]}")
+        rc = 3
+    sys.exit(rc)
